@@ -1214,9 +1214,20 @@ br_ssl_engine_recvrec_ack(br_ssl_engine_context *cc, size_t len)
 	buf = recvpld_buf(cc, &len);
 	if (buf != NULL) {
 		switch (cc->record_type_in) {
+		case BR_SSL_HANDSHAKE:
+			/*
+			 * A handshake message received in the data phase
+			 * (HelloRequest, ClientHello) starts a new
+			 * handshake; application data accepted so far but
+			 * not yet flushed must leave first, in a record of
+			 * its own type.
+			 */
+			if (cc->application_data == 1) {
+				sendpld_flush(cc, 0);
+			}
+			/* Fall through */
 		case BR_SSL_CHANGE_CIPHER_SPEC:
 		case BR_SSL_ALERT:
-		case BR_SSL_HANDSHAKE:
 			jump_handshake(cc, 0);
 			break;
 		case BR_SSL_APPLICATION_DATA:
@@ -1293,6 +1304,14 @@ br_ssl_engine_renegotiate(br_ssl_engine_context *cc)
 		 * message that only the handshake processor can consume.)
 		 */
 		return 0;
+	}
+
+	/*
+	 * Application data accepted so far must be sent before the
+	 * handshake messages, in a record of its own type.
+	 */
+	if (cc->application_data == 1) {
+		sendpld_flush(cc, 0);
 	}
 	jump_handshake(cc, 2);
 	return 1;
